@@ -125,7 +125,7 @@ class PyComp:
             if isinstance(v, PyUnion):
                 return PyUnion(sub(v.kind), [sub(x) for x in v.alts])
             if isinstance(v, PyLit):
-                return PyLit(sub(v.isbytes), sub(v.val))
+                return PyLit(sub(v.isbytes), sub(v.val), sub(v.numkind))
             if isinstance(v, PyAbsList):
                 return PyAbsList(sub(v.n), sub(v.first), sub(v.last))
             if isinstance(v, z3.ExprRef):
@@ -215,15 +215,17 @@ class PyOpt:
 
 
 LE_BYTES = z3.Function("literal_is_bytes", z3.StringSort(), z3.BoolSort())     # ast.literal_eval(text) is a bytes object
-LE_VAL = z3.Function("literal_value", z3.StringSort(), Val)                       # ... its value
+LE_VAL = z3.Function("literal_value", z3.StringSort(), Val)
+LE_NUMKIND = z3.Function("literal_numkind", z3.StringSort(), z3.IntSort())               # 0 str/bytes, 1 int/float, 2 complex                       # ... its value
 LCAT = z3.Function("literal_concat", Val, Val, Val)                               # value of a + b for two str / two bytes values
 
 
 class PyLit:
     """the result of ast.literal_eval on a string-literal token: str or bytes (a flag) and an abstract value"""
 
-    def __init__(self, isbytes, val):
-        self.isbytes, self.val = isbytes, val
+    def __init__(self, isbytes, val, numkind=None):
+        # numkind: 0 = str / bytes, 1 = int / float, 2 = complex (what kind of value the literal text denotes; uninterpreted per text)
+        self.isbytes, self.val, self.numkind = isbytes, val, (z3.IntVal(0) if numkind is None else numkind)
 
     def __repr__(self):
         return f"Lit({self.isbytes}, {self.val})"
